@@ -209,10 +209,57 @@ def many_rows(ctx: Ctx):
                       f"torchjd-driven graph and {rb} / {pb} on the twin driven by torch.autograd.backward", rp)
 
 
+def head_local(ctx: Ctx):
+    """heads with a sub-expression that depends on a task parameter ONLY and saves tensors (uncertainty weighting:
+    exp(-s_i) * loss_i + s_i): after mtl_backward(retain_graph=False) every node of every head is released — also those
+    that lead to a task parameter but not to the features, and those of the first tasks as much as those of the last —
+    exactly as after torch.autograd.backward(losses) on the twin; follow-up probes stay inside the heads"""
+    rng = ctx.rng
+    T = rng.choice([2, 3])
+    retain = rng.random() < 0.3
+    chunk = rng.choice([None, 1, 2])
+    xv = [float(rng.randint(1, 3)) for _ in range(3)]
+    sv = [float(rng.randint(-1, 1)) for _ in range(T)]
+    wv = [[float(rng.randint(1, 3)) for _ in range(3)] for _ in range(T)]
+
+    def build():
+        x = torch.tensor(xv, dtype=torch.float64, requires_grad=True)
+        f = x * x
+        ss = [torch.tensor([v], dtype=torch.float64, requires_grad=True) for v in sv]
+        ws = [torch.tensor(v, dtype=torch.float64, requires_grad=True) for v in wv]
+        precs = [torch.exp(-s) for s in ss]                        # parameter-only, saves its output
+        raws = [((f * w) ** 2).sum() for w in ws]
+        losses = [(p * r + s).sum() for p, r, s in zip(precs, raws, ss)]
+        return x, f, ss, ws, precs, raws, losses
+    A = build()
+    B = build()
+    ra = attempt(lambda: mtl_backward(A[6], [A[1]], Sum(), tasks_params=[[s, w] for s, w in zip(A[2], A[3])],
+                                      shared_params=[A[0]], retain_graph=retain, parallel_chunk_size=chunk))
+    rb = attempt(lambda: torch.autograd.backward(B[6], inputs=[B[0]] + B[2] + B[3], retain_graph=retain))
+    t = rng.randrange(T)
+    probes = {
+        "grad(exp(-s_t), s_t)": lambda G: torch.autograd.grad(G[4][t].sum(), G[2][t], retain_graph=True),
+        "grad(loss_t, w_t)": lambda G: torch.autograd.grad(G[6][t], G[3][t], retain_graph=True),
+        "grad(loss_t, features)": lambda G: torch.autograd.grad(G[6][t], G[1], retain_graph=True),
+    }
+    name = rng.choice(sorted(probes))
+    pa = attempt(lambda: probes[name](A))
+    pb = attempt(lambda: probes[name](B))
+    ctx.case(("head-local", T, t, retain, chunk, name), nontrivial=True)
+    ctx.count("head_local", f"{name}:{'retain' if retain else 'free'}")
+    if ra != rb or pa != pb:
+        ctx.violation(f"mtl_backward(retain_graph={retain}, chunk {chunk}) on {T} uncertainty-weighted heads, then {name} for task {t}: "
+                      f"{ra} / {pa} on the torchjd-driven graph, {rb} / {pb} on the twin driven by torch.autograd.backward",
+                      {"family": "head-local probes", "tasks": T, "probe": name, "task": t, "retain_graph": retain, "chunk": chunk,
+                       "torchjd_graph": [ra, pa], "torch_twin": [rb, pb]})
+
+
 def main(ctx: Ctx):
     ctx.lean_gate()
     for _ in range(6 if ctx.tier == "quick" else 300):
         many_rows(ctx)
+    for _ in range(12 if ctx.tier == "quick" else 600):
+        head_local(ctx)
     n = 250 if ctx.tier == "quick" else 40000
     for i in range(n):
         if i % 2:
